@@ -126,6 +126,31 @@ def run_plain(case, root, viol, cnt):
         exp = D.Experiment.experimentFromPackage(ep, location=root, variable_files=list(vpaths) or None,
                                                 platform=pkg.get('platform'))
         exp.validateExperiment(checkExecutables=True)
+        # the first store is the one that turns the package (as configured for the selected platform) into the instance
+        # description: the environments the components name must be the same on both sides
+        try:
+            pconc = ep.configuration.get_flowir_concrete(return_copy=False)
+            iconc = exp.experimentGraph.configuration.get_flowir_concrete(return_copy=False)
+            names = set()
+            for cid in pconc.get_component_identifiers(False):
+                try:
+                    nm = (pconc.get_component_configuration(cid, raw=True).get('command') or {}).get('environment')
+                except Exception:
+                    nm = None
+                if nm and str(nm).lower() not in ('none', 'environment'):
+                    names.add(nm)
+            for nm in sorted(names):
+                a = pconc.get_environment(nm)
+                b = iconc.get_environment(nm)
+                cnt['probe.package_vs_instance_environments'] = cnt.get('probe.package_vs_instance_environments', 0) + 1
+                # (values that use %(variables)s are stored resolved: only their presence is compared)
+                differs = set(a) != set(b) or any(a[k] != b[k] for k in a if '%(' not in str(a[k]))
+                if differs:
+                    viol.append({'property': 'C07', 'sig': 'store:environment-of-the-instance-differs-from-the-package',
+                                 'detail': {'environment': nm, 'platform': pkg.get('platform'), 'package': a, 'instance': b}})
+                    return
+        except (E.FlowIREnvironmentUnknown, E.FlowIRPlatformUnknown):
+            pass
     except (E.ExperimentInvalidConfigurationError, E.FlowIRConfigurationErrors, E.UnusedDataReferenceError,
             E.UndeclaredDataReferenceError) as e:
         # the loader or the validation rejects the generated package (the textual replica rewrite and the textual
